@@ -249,20 +249,25 @@ def run_groupby(rep, rng, n):
         keys = [rng.choice([A.vstr("x"), A.vstr("y"), A.vstr("z"), A.NULL]) for _ in range(m)]
         vals = [A.vint(rng.randint(0, 5)) for _ in range(m)]
         groups = rng.choice([None, None, ["x"], ["x", "y"], ["z"]])
-        cases.append({"mode": "groups", "keys": keys, "vals": vals,
+        # a categorical grouping column declares its groups: categories without rows are (empty) groups too
+        categories = rng.choice([None, None, ["x", "y", "z"], ["x", "y", "z", "w"]])
+        cases.append({"mode": "groups", "keys": keys, "vals": vals, "categories": categories,
                       "groups": [A.vstr(g) for g in groups] if groups else None, "py_groups": groups})
     ans = run_driver("C19", [{k: c[k] for k in ("mode", "keys", "vals", "groups")} for c in cases])
     for c, a in zip(cases, ans):
         df = pd.DataFrame({"v": A.series_of(c["vals"], "int64"), "g": A.series_of(c["keys"], "str")})
+        cats = c.get("categories")
+        if cats:
+            df["g"] = pd.Categorical(df["g"], categories=cats)
         seen = {}
 
         def fn(d):
             for k, s in d.items():
                 seen[k] = s.tolist()
             return True
-        present = {A.to_py(k) for k in c["keys"] if k != A.NULL}
+        present = {A.to_py(k) for k in c["keys"] if k != A.NULL} | set(cats or [])
         schema = pa.DataFrameSchema({"v": pa.Column(int, pa.Check(fn, groupby="g", groups=c["py_groups"])),
-                                     "g": pa.Column(str, nullable=True)})
+                                     "g": pa.Column(None if cats else str, nullable=True)})
         with warnings.catch_warnings():
             warnings.simplefilter("ignore")
             try:
@@ -270,9 +275,9 @@ def run_groupby(rep, rng, n):
                 raised = None
             except Exception as e:  # noqa: BLE001
                 raised = e
-        rep.case({k: c[k] for k in ("keys", "vals", "py_groups")}, nontrivial=len(c["keys"]) > 0)
-        rep.count("groupby")
-        expected = {}
+        rep.case({k: c.get(k) for k in ("keys", "vals", "py_groups", "categories")}, nontrivial=len(c["keys"]) > 0)
+        rep.count("groupby" + (":categorical" if cats else ""))
+        expected = {g: [] for g in (cats or []) if c["py_groups"] is None or g in c["py_groups"]}
         for k, v in zip(c["keys"], c["vals"]):
             if k == A.NULL:
                 continue
@@ -283,20 +288,22 @@ def run_groupby(rep, rng, n):
         if invalid:
             # documented: an unknown group is a failed check, not a crash
             if raised is None or not isinstance(raised, pa.errors.SchemaError):
-                rep.property_failure({k: c[k] for k in ("keys", "vals", "py_groups")},
+                rep.property_failure({k: c.get(k) for k in ("keys", "vals", "py_groups", "categories")},
                                      f"unknown group key: expected a failed check, got {type(raised).__name__}")
             continue
         if raised is not None:
-            rep.property_failure({k: c[k] for k in ("keys", "vals", "py_groups")},
+            rep.property_failure({k: c.get(k) for k in ("keys", "vals", "py_groups", "categories")},
                                  f"groupby check raised {type(raised).__name__}: {str(raised)[:100]}")
             continue
         if seen != expected:
-            rep.property_failure({k: c[k] for k in ("keys", "vals", "py_groups")},
+            rep.property_failure({k: c.get(k) for k in ("keys", "vals", "py_groups", "categories")},
                                  f"groupby handed {seen}, the groups are {expected}")
             continue
         model = {A.to_py(k): [A.to_py(x) for x in vs] for k, vs in a}
+        if cats:
+            continue            # (the Lean `groupsDict` has no notion of declared categories)
         if model != seen:
-            rep.correspondence_break({k: c[k] for k in ("keys", "vals", "py_groups")},
+            rep.correspondence_break({k: c.get(k) for k in ("keys", "vals", "py_groups", "categories")},
                                      "groupsDict model differs", detail={"model": model, "impl": seen})
 
 
